@@ -21,7 +21,8 @@ RULE = ("(candidate set, alternative winner, assertion set) triples: n = 2..5 (6
         "RAIRE output / that output minus one / random / redundant / mutually inconsistent; every alternative winner; "
         "non-trivial = the tree has at least one pruned node and n >= 3; distinct = hash of the triple")
 REQUIRED = ["trees_built", "trees_with_unpruned_leaf", "trees_fully_pruned", "pruned_nodes_tag_checked", "marker_checked",
-            "parse_checked", "set:raire", "set:raire_minus_one", "set:random", "set:redundant", "set:inconsistent", "set:empty", "parse_multi_contest_logs"]
+            "parse_checked", "set:raire", "set:raire_minus_one", "set:random", "set:redundant", "set:inconsistent", "set:empty", "parse_multi_contest_logs",
+            "rendered_tags_checked", "rendered_tags_checked:node_pruned_by_both_kinds"]
 ASSUMPTIONS = ["tag comparison is by assertion content (the module identifies an assertion by list.index, which maps exact "
                "duplicates to one index)"]
 N_CASES = {"quick": 128000, "thorough": 1024000}
@@ -128,6 +129,28 @@ def walk(tree, path, leaves, pruned):
         walk(sub, path + [tree[0]], leaves, pruned)
 
 
+def leaf_pairs(tree, tup):
+    """(node, rendered tag) for every leaf, walking the list tree and its rendering side by side."""
+    if len(tree) == 1:
+        yield tree[0], (tup[1] if isinstance(tup, tuple) and len(tup) == 2 else None)
+        return
+    kids = tup[1:] if isinstance(tup, tuple) else ()
+    if len(kids) != len(tree[1]):
+        yield None, None
+        return
+    for br, tk in zip(tree[1], kids):
+        yield from leaf_pairs(br, tk)
+
+
+def parse_tag(tag):
+    """'NEB 0,2\nConfirmed\nIRV 1\nUnconfirmed' -> {'NEB': ([0,2], True), 'IRV': ([1], False)}"""
+    import re
+    out = {}
+    for kind, nums, conf in re.findall(r"(NEB|IRV) ([0-9,]+)\n(Confirmed|Unconfirmed)", tag or ""):
+        out[kind] = ([int(v) for v in nums.split(",")], conf == "Confirmed")
+    return out
+
+
 def tuple_has_marker(t):
     if isinstance(t, tuple):
         return any(tuple_has_marker(x) for x in t)
@@ -205,6 +228,28 @@ def run_case(case, rec):
     if tuple_has_marker(tup) != bool(leaves):
         rec.violation("c20.marker", "unpruned_leaf_marker_disagrees_with_tree", {"marker": tuple_has_marker(tup),
                                                                                  "untagged_leaves": len(leaves)})
+        return
+    # the rendering shows, for every pruned node, exactly the assertion numbers of its two tag lists and whether any of
+    # each kind is confirmed (the lists themselves were compared with the reference above)
+    for node, tag in leaf_pairs(tree, tup):
+        if node is None:
+            rec.violation("c20.marker", "rendered_tree_has_another_shape", {"rendered": repr(tup)[:300]})
+            return
+        if not (node.NEBTagList or node.IRVTagList):
+            continue
+        got = parse_tag(tag)
+        want = {}
+        if node.NEBTagList:
+            want["NEB"] = ([i for i, _ in node.NEBTagList], any(p for _, p in node.NEBTagList))
+        if node.IRVTagList:
+            want["IRV"] = ([i for i, _ in node.IRVTagList], any(p for _, p in node.IRVTagList))
+        rec.count("rendered_tags_checked")
+        if len(want) == 2:
+            rec.count("rendered_tags_checked:node_pruned_by_both_kinds")
+        if got != want:
+            rec.violation("c20.marker", "rendered_tag_does_not_show_the_nodes_assertions",
+                          {"rendered": tag, "NEB": want.get("NEB"), "IRV": want.get("IRV")})
+            return
 
 
 def run_parse(case, rec, V):
